@@ -58,7 +58,7 @@ class MidCircuitWorld(World):
         thorough = self.ctx.tier == "thorough"
         return {"n_steps": rng.randint(3, 8) if not thorough else rng.randint(6, 16),
                 "max_width": rng.choice([1, 2, 3, 3, 4] if not thorough else [2, 3, 4, 5]),
-                "n_shots": rng.choice([1, 1, 7, 200, 200] if not thorough else [1, 7, 200, 2000]),
+                "n_shots": rng.choice([1, 1, 7, 200, 200] if not thorough else [1, 7, 200, 500]),
                 "faults": rng.random() < 0.8, "script_rate": rng.choice([0.2, 0.4, 0.7]),
                 "ctrl_kinds": rng.sample(["dict", "class", "func", "none"], rng.randint(1, 4)),
                 "max_depth": rng.choice([1, 2, 2, 3]), "init_p": rng.choice([0.0, 0.4, 0.8]), "wide_p": rng.choice([0.0, 0.04, 0.1])}
